@@ -178,9 +178,77 @@ def one_case(ctx, batch, op, fn, A, B, tag):
     batch.append(({'op': 'c11.binop', 'operator': op, 'a': jq(a_si, a_dim, a_arr), 'b': jq(b_si, b_dim, b_arr)}, r, inp))
 
 
+# unit strings that differ only in their blanks and denote different dimensions (a blank is an implicit product)
+BLANK_PAIRS = [('m s', 'ms'), ('m in', 'min'), ('m mol', 'mmol'), ('m g', 'mg'), ('m K', 'mK'), ('m A', 'mA'), ('k g', 'kg'),
+               ('m N', 'mN'), ('c d', 'cd'), ('m m', 'mm'), ('h Pa', 'hPa')]
+
+STRING_ENTRY_SCRIPT = r"""
+import sys, json, io, contextlib, operator
+sys.path.insert(0, %r)
+from harness import lib_units as U
+from pgradd.Units import Quantity
+def outcome(f):
+    try:
+        return U.canon_value(f())
+    except Exception as e:
+        return {'err': U.errclass(e)}
+out = []
+with contextlib.redirect_stdout(io.StringIO()):
+    for a, b in json.load(sys.stdin):
+        qa = outcome(lambda: Quantity(2.0, a)); qb = outcome(lambda: Quantity(3.0, b))
+        r = {'a': qa, 'b': qb}
+        if 'err' not in qa and 'err' not in qb:
+            x, y = Quantity(2.0, a), Quantity(3.0, b)
+            r['add'] = outcome(lambda: x + y); r['lt'] = outcome(lambda: x < y); r['in_units'] = outcome(lambda: x.in_units(b))
+        out.append(r)
+json.dump(out, sys.stdout)
+"""
+
+
+def string_entry_cases(ctx, pairs=None):
+    """quantities built from unit strings, in a fresh interpreter and in both orders of first use: the dimension a string
+    denotes (the C10 model's) is the one the quantity carries whatever strings were read before, so two strings of
+    different dimensions still cannot be added, compared or converted into each other"""
+    import subprocess, sys, os
+    here = os.path.dirname(os.path.dirname(os.path.abspath(__file__)))
+    pairs = pairs or ([list(p) for p in BLANK_PAIRS] + [[b, a] for a, b in BLANK_PAIRS])
+    texts = sorted({t for p in pairs for t in p})
+    reps = ctx.model([{'op': 'c10.eval', 'text': t} for t in texts])
+    if reps is None:
+        return
+    den = dict(zip(texts, reps))
+    for pair in pairs:
+        pr = subprocess.run([sys.executable, '-c', STRING_ENTRY_SCRIPT % here], input=json.dumps([pair]), capture_output=True, text=True, timeout=300)
+        if pr.returncode != 0:
+            raise common.ImplFailure('building quantities from unit strings', {'strings': pair}, RuntimeError(pr.stderr[-400:]))
+        r = json.loads(pr.stdout)[0]
+        a, b = pair
+        ctx.count('string_entry_pairs')
+        ctx.case(json.dumps(['string-entry', a, b]), None)
+        inp = {'strings_in_order_of_use': pair}
+        for t, q in ((a, r['a']), (b, r['b'])):
+            m = den[t]
+            if 'dim' in m and ('dim' not in q or not L.dim_matches(q['dim'], m['dim'])):
+                ctx.violation('a quantity built from a unit string does not carry the dimension the string denotes', dict(inp, string=t),
+                              m.get('dim'), q)
+                return
+        ma, mb = den[a], den[b]
+        if 'dim' in ma and 'dim' in mb and not L.dim_matches([float(x) for x in _dimf(ma['dim'])], mb['dim']) and 'add' in r:
+            for op in ('add', 'lt', 'in_units'):
+                if r[op].get('err') != 'unitsError':
+                    ctx.violation('quantities of different dimensions (built from unit strings) are combined without a units error',
+                                  dict(inp, operation=op), 'unitsError', r[op])
+                    return
+
+
+def _dimf(d):
+    return [float(common.unjrat(x)) if not isinstance(x, (int, float)) else float(x) for x in d]
+
+
 def run(ctx):
     with L.quiet():
         _run(ctx)
+        string_entry_cases(ctx)
 
 
 def _run(ctx):
@@ -373,6 +441,10 @@ def replay(ctx, rec):
     with L.quiet():
         if 'import' in rec.get('input', rec):
             return L.importable(ctx)
+        if 'strings_in_order_of_use' in rec.get('input', rec):
+            before = len(ctx.violations)
+            string_entry_cases(ctx, [rec.get('input', rec)['strings_in_order_of_use']])
+            return len(ctx.violations) == before
         return _replay(ctx, rec, [])
 
 
